@@ -48,7 +48,8 @@ CHECKS = {
              'unknown name and the context name); a twin with the same signature called directly decides what must bind. Names collide '
              'textually with the context name, a view\'s context name equals a parameter name, one function object is registered with '
              'and without a context, all generated functions share one __qualname__. '
-             'Also: names the library uses for its own parameters, an async def behind a functools.wraps decorator, the same programs under the pydantic validator (Union[int, str] = None defaults) and under a validator built with exclude_param, by-name arguments wrapped in an array.',
+             'Also: names the library uses for its own parameters, an async def behind a functools.wraps decorator, the same programs under the pydantic validator (Union[int, str] = None defaults) and under a validator built with exclude_param, by-name arguments wrapped in an array. '
+             'Round 8: positional values spelled like parameter names, a JSON-schema validator that constrains nothing.',
         note='trusted: CPython call semantics (the twin), the admissibility rule of DESIGN.md §3 C04; known findings D4, D18'),
     'C05': dict(
         category='exploration', design_ref='DESIGN.md §3 C05, §8',
@@ -67,7 +68,8 @@ CHECKS = {
              'of <= 3 operations over 6 ids (4-5 sampled, mixed-type double duplicates) are executed; exception type and accepted/refused '
              'verdict are compared with validity predicates, batch contents with a list model after every operation; one shard runs under '
              'icontract invariants on the real batch classes. '
-             'Registered error codes (library and user) are crossed with absent / ill-typed messages.',
+             'Registered error codes (library and user) are crossed with absent / ill-typed messages. '
+             'Payloads nested 100..900 levels deep stay opaque to deserialisation.',
         note='trusted: validity predicates in vmon/monitors/c06.py; float ids and rejection of valid values are not judged'),
     'C07': dict(
         category='exploration', design_ref='DESIGN.md §3 C07, §8',
@@ -75,7 +77,8 @@ CHECKS = {
         text='Call programs of 1..4 calls / notifications over the probe methods (incl. a parameter named id, suspending coroutines with '
              'decreasing delays) run in all ten notations on the real sync / async clients whose transport is the real sync / async '
              'dispatcher, under four id generators, strict on/off and two error base classes; the single wire document, the value / '
-             'exception reaching the caller, server-side executions and equality across notations are judged.',
+             'exception reaching the caller, server-side executions and equality across notations are judged. '
+             'Round 8: a client base class overriding get_error_cls, a BatchRequest extended between two sends.',
         note='trusted: twin table in vmon/models/server.py, vmon/models/wire.py; known finding D7 (uuid id generator)'),
     'C08': dict(
         category='fault_enumeration', design_ref='DESIGN.md §3 C08, §8',
@@ -95,7 +98,8 @@ CHECKS = {
              'backoff families / parameters (caps below the first delay, factor 1 and < 1, non-zero, negative and fresh-per-draw jitter, attempts 0; entry points send / call / client() / proxy / notify / batch.call()), 4 codes sets '
              'x 4 exception sets and 4 strategy sources; the interleaved send / sleep event sequence (arguments to 1e-9, positions, which '
              'sleep function) and the object reaching the caller are compared with the model. '
-             'Also: delays that come back below the cap, exceptions that wrap a listed one, per-request strategies that list nothing, error codes from the reserved server-error range.',
+             'Also: delays that come back below the cap, exceptions that wrap a listed one, per-request strategies that list nothing, error codes from the reserved server-error range. '
+             'Round 8: user-defined iterator backoffs; the requests / httpx backends against a loop-back peer that drops connections.',
         note='trusted: vmon/models/retry.py; the names time/asyncio inside pjrpc.client.retry are rebound to recording shims'),
     'C10': dict(
         category='exploration', design_ref='DESIGN.md §3 C10, §2.7, §8',
@@ -105,7 +109,8 @@ CHECKS = {
              'are dispatched by the real AsyncDispatcher under a scheduler that parks every instrumented coroutine and resumes exactly '
              'one per step; all schedules of every generated shape are executed and judged (request-order array, own ids / results, '
              'run-once, nothing left in flight, sequential mode never overlapping and in request order). '
-             'Element profiles include plain methods raising TypeError, class-based view methods keeping state on self, the codes -32600 / -32700, per-code handlers that sign the error, and a context variable set by the middleware and read after the method\'s suspension points.',
+             'Element profiles include plain methods raising TypeError, class-based view methods keeping state on self, the codes -32600 / -32700, per-code handlers that sign the error, and a context variable set by the middleware and read after the method\'s suspension points. '
+             'Round 8: one-element batches; dispatchers handed out by the aiohttp integration.',
         note='trusted: vmon/sched.py; exhaustive over user-code suspension points of the generated shapes only'),
     'C11': dict(
         category='exploration', design_ref='DESIGN.md §3 C11, §8',
@@ -115,7 +120,8 @@ CHECKS = {
              'answered with 16 kinds of body and one batch object fired several times on both clients; C09 retry '
              'sessions with tracers, C19 scripted attempt outcomes incl. BaseException / CancelledError, C07 call programs x notations and '
              'C08 scripted response documents run on the sync and the async client. Documents, code tuples, execution logs, event '
-             'sequences, wire documents, outcomes, tracer events and sleep arguments are compared pairwise; no model is involved.',
+             'sequences, wire documents, outcomes, tracer events and sleep arguments are compared pairwise; no model is involved. '
+             'Round 8: the sync and async httpx backends against one scripted HTTP peer (media types x answers).',
         note='trusted: only the comparison code; a defect present in both twins is invisible here (other checks cover that)'),
     'C12': dict(
         category='exploration', design_ref='DESIGN.md §3 C12, §8',
@@ -125,7 +131,8 @@ CHECKS = {
              'batches, rejected documents) x {sync, async, async with suspending middlewares, async sequential-batch, async with hooks returning futures / '
              '__await__ objects, dispatchers obtained from flask / aiohttp add_endpoint() next to decoy hooks} run on the real '
              'dispatchers; per-element enter/exit/handler event sequences (with the objects handed over), executions and the response '
-             'sent are compared with the model.',
+             'sent are compared with the model. '
+             'Round 8: dispatchers configured with their own response classes, plain dict contexts.',
         note='trusted: the model in vmon/monitors/c12.py + vmon/models/server.py; probes do not raise'),
     'C13': dict(
         category='exploration', design_ref='DESIGN.md §3 C13, §8',
@@ -191,7 +198,8 @@ CHECKS = {
              'name go through aiohttp (loop-back TestServer), flask and werkzeug applications built by the integrations; status, recorded '
              'status-function argument, body document, content type, empty-200, 415-and-no-execution and escaping exceptions are judged '
              'against a twin dispatcher called directly, and the three replies to one request against each other. '
-             'A reply that never comes is a verdict only if a control request to the same application is answered; endpoints behind a flask blueprint with its own url_prefix.',
+             'A reply that never comes is a verdict only if a control request to the same application is answered; endpoints behind a flask blueprint with its own url_prefix. '
+             'Round 8: structured-suffix media types; a pjrpc sub-Application mounted through add_subapp.',
         note='trusted: the twin dispatcher (itself judged by C01-C03); loop-back sockets must be available for the aiohttp part'),
     'C19': dict(
         category='fault_enumeration', design_ref='DESIGN.md §3 C19, §8',
@@ -202,7 +210,8 @@ CHECKS = {
              'body under strict / non-strict clients, also from inside an except block, and 2..3 requests are kept in flight through one async client '
              'and released in every order; an automaton checks begin/completion pairing per attempt, configuration order, payload identity, '
              'trace-context identity and the exception reaching the caller. '
-             'Also: StopIteration raised by the transport, batches built with strict=False, a last tracer that raises in a completion handler (judged for one begin / exactly one completion per tracer).',
+             'Also: StopIteration raised by the transport, batches built with strict=False, a last tracer that raises in a completion handler (judged for one begin / exactly one completion per tracer). '
+             'Round 8: LoggingTracer riding along, tracers given as deque / dict view, contexts that take no attributes.',
         note='trusted: vmon/models/retry.py for which attempts happen; probe tracers do not raise'),
     'C20': dict(
         category='exploration', design_ref='DESIGN.md §3 C20, §8',
@@ -211,7 +220,8 @@ CHECKS = {
              '"") over 2 endpoints x 2 methods, passthrough on/off, sync and async transports are executed against the real PjRpcMocker; '
              'after every call the reply text, refusal, passthrough invocation and mocker.calls are compared with a rotating-list model. '
              'Histories of <= 3 operations over a reduced alphabet are enumerated, longer ones sampled. '
-             'Also: batches of one element, parameter names of the mocker\'s own functions, negative replace indices, stop/start of one mocker object, the library\'s requests / httpx / aiohttp backends with non-normalised URLs.',
+             'Also: batches of one element, parameter names of the mocker\'s own functions, negative replace indices, stop/start of one mocker object, the library\'s requests / httpx / aiohttp backends with non-normalised URLs. '
+             'Round 8: patches configured with id=, pass-through to the library backends\' real transport.',
         note='trusted: the list model inside vmon/monitors/c20.py; notifications and invalid remove/replace are not generated'),
 }
 
